@@ -41,6 +41,13 @@ class Connection:
     previous = gfa._search_duplicate(self)
     if previous:
       if previous.virtual:
+        if not isinstance(previous, gfapy.line.Unknown) and \
+            previous.record_type != self.record_type:
+          # (e.g. a path named as a segment which other lines refer to)
+          raise gfapy.NotUniqueError(
+            "Line: {}\n".format(str(self))+
+            "The identifier is used by other lines "+
+            "for a line of record type {}".format(previous.record_type))
         return self._substitute_virtual_line(previous)
       else:
         return self._process_not_unique(previous)
